@@ -112,7 +112,13 @@ class Monitor:
         if not raw.endswith(b"EOF"):
             self.hit("C15", "framing", "response without end-of-message marker")
             return
-        doc = decode(raw)
+        try:
+            doc = decode(raw)
+            if not isinstance(doc, dict):
+                raise ValueError("not a JSON object")
+        except Exception as e:
+            self.hit(["C15", "C01", "C09"], "response not JSON", f"a response is not one JSON document followed by the end-of-message marker: {raw[:120]!r} ({e})")
+            return
         st = doc.get("status", "").replace("GameStatus.", "")
         self.count(f"resp:{st}")
         reqs = [d for d in self.sent.get(addr, [])]
@@ -345,7 +351,7 @@ def instrument(S, cfg, CR, goals):
     return M
 
 
-def run_sessions(ctx, prop, n_sessions, gen_opts, cfg_opts=None, extra_monitor=None, n_directed=14):
+def run_sessions(ctx, prop, n_sessions, gen_opts, cfg_opts=None, extra_monitor=None, n_directed=16):
     """Generate sessions, follow them with the model, collect this property's monitor hits."""
     CG, CR, nsgenv = _imports()
     rng0 = random.Random(ctx.seed * 104729 + int(prop[1:]))
